@@ -267,6 +267,21 @@ theorem failed_finalize_retry_refused (o : WOpts) (s : Store) (flt : Fault) (evs
   simp only [h]
   refine ⟨?_, ?_, ?_, ?_, ?_, ?_, ?_⟩ <;>
     simp [Store.step, Store.applyEvs, hapi, Store.stepBlockstore, Store.finalizeRO, Store.closeInner, hv2]
+/-- (4c) The same for the storage CAR: after a Finalize whose write failed, Finalize again and Put are refused
+    (closed) and write nothing. -/
+theorem failed_finalize_retry_refused_storage (o : WOpts) (s : Store) (flt : Fault) (evs : List WriteEv)
+    (hv2 : o.v1 = false) (hapi : s.api = .storage) (hopen : s.closed = false)
+    (he : s.finalizeEvs o = some evs) (hfire : flt.call < evs.length) (c : Cid) (d : Bytes) :
+    let s' := (s.finalizeF o (some flt)).1
+    (s'.step o .finalize).2.1 = .err .closed ∧ (s'.step o .finalize).2.2 = [] ∧ (s'.step o .finalize).1.file = s'.file ∧
+    (s'.step o (.put c d)).2.1 = .err .closed ∧ (s'.step o (.put c d)).2.2 = [] := by
+  have h : s.finalizeF o (some flt)
+      = ({ s.applyEvs (faultyPrefix evs flt) with closed := true }, .err .other, faultyPrefix evs flt) := by
+    unfold Store.finalizeF
+    simp [hv2, hopen, hapi, he, hfire]
+  simp only [h]
+  refine ⟨?_, ?_, ?_, ?_, ?_⟩ <;>
+    simp [Store.step, Store.applyEvs, hapi, Store.stepStorage, hv2]
 /-- (5b) A failed `FinalizeReadOnly` (read-write blockstore, CARv2 mode, fault on any of its writes) returns
     an error and leaves the store finalized but open; from then on **no finalizing call and no write
     reports success**: a second `FinalizeReadOnly` and `Finalize` are refused, `Put` is refused (lookups
